@@ -262,6 +262,9 @@ def special(e, rng, machine, depth=0):
     else:           # 128K paging: page, touch 0xC000 area, possibly lock
         v = rng.choice((rng.randrange(8), 0x10 | rng.randrange(8), rng.randrange(32), 0x20 | rng.randrange(32), rng.randrange(256)))
         e.emit(0x01); e.word(rng.choice((0x7FFD, 0x7FFD, 0x7FFD, 0x3FFD, 0x00FD, 0x7DFD))); e.emit(0x3E, v, 0xED, 0x79)
+        if rng.random() < 0.35:
+            # a second write that keeps the mapping and changes only the lock bit / the unused bits
+            e.emit(0x3E, v ^ rng.choice((0x20, 0x20, 0x40, 0x80, 0xE0)), 0xED, 0x79)
         a1 = rng.randrange(0xC000, 0x10000)
         e.emit(0x3A); e.word(a1); e.emit(0x3C, 0x32); e.word(rng.choice((a1, rng.randrange(0xC000, 0x10000))))
 
